@@ -204,8 +204,8 @@ def run_config(ctx, std, cxx, primary):
                 return ("skipped", kind, lo, hi, None)
             group = MANIFEST[kind][0]
             sub = vlib.Ctx(ctx.pid, ctx.tier, LEVEL, ctx.seed)
-            sub.run_harness(binaries[group], ["--kind", kind, "--nmin", str(lo), "--nmax", str(hi), "--deadline", str(int(max(10, left - 30)))],
-                            tag=tag_of(group, std, cxx), timeout=max(60, left + 60))
+            run_guarded(sub, binaries[group], ["--kind", kind, "--nmin", str(lo), "--nmax", str(hi), "--deadline", str(int(max(10, left - 30)))],
+                        tag_of(group, std, cxx), max(60, left + 60), kind)
             return ("ok", kind, lo, hi, sub)
         return g
 
@@ -219,8 +219,8 @@ def run_config(ctx, std, cxx, primary):
                 return ("skipped", kind, None)
             group = HUGE_MANIFEST[kind][0]
             sub = vlib.Ctx(ctx.pid, ctx.tier, LEVEL, ctx.seed)
-            sub.run_harness(binaries[group], ["--kind", kind, "--tier", huge_tier, "--deadline", str(int(max(10, left - 30)))],
-                            tag=tag_of(group, std, cxx), timeout=max(60, left + 60))
+            run_guarded(sub, binaries[group], ["--kind", kind, "--tier", huge_tier, "--deadline", str(int(max(10, left - 30)))],
+                        tag_of(group, std, cxx), max(60, left + 60), kind)
             return ("ok", kind, sub)
         return g
 
@@ -356,7 +356,44 @@ def run(ctx):
     ctx.note("groups: " + "; ".join("%d=%s" % (g, GROUP_DOC[g]) for g in GROUPS))
 
 
+
+HANG_DEADLINE, HANG_TIMEOUT = 15, 75
+
+
+def run_guarded(sub, binary, args, tag, timeout, kind):
+    """run_harness, with NON-TERMINATION as an outcome.  Every harness ends itself at its own --deadline, which is 90 s before `timeout`; a harness that is
+    still running then is stuck inside one law instance (e.g. an operator- that counts increments and never arrives).  Before that is believed the same
+    job is run once more alone with --deadline 15 and 60 s of grace: if it ends this time the first run was merely starved (reported as a cap),
+    if not, the kind is reported as a violation whose replay is that short run."""
+    try:
+        sub.run_harness(binary, args, tag=tag, timeout=timeout)
+        return
+    except vlib.HarnessError as e:
+        if "harness timeout" not in str(e):
+            raise
+    short = list(args)
+    short[short.index("--deadline") + 1] = str(HANG_DEADLINE)
+    try:
+        sub.run_harness(binary, short, tag=tag, timeout=HANG_TIMEOUT)
+        sub.cap("%s: the harness overran its deadline once (machine overloaded?) and ended normally when repeated alone with --deadline %d; only that prefix was enumerated" % (kind, HANG_DEADLINE))
+    except vlib.HarnessError as e:
+        if "harness timeout" not in str(e):
+            raise
+        sub.violation("C12/%s/no-termination" % kind,
+                      "kind=%s: the harness did not end within %d s after its own deadline, twice (the second time alone, --deadline %d): one law instance of this iterator kind does not "
+                      "return (an operation that never terminates, e.g. a difference computed by counting increments towards a position that lies behind); harness command: %s"
+                      % (kind, HANG_TIMEOUT - HANG_DEADLINE, HANG_DEADLINE, " ".join(short)), harness=tag, args=short)
+
+
 def replay(ctx, rec):
     group, std, cxx = parse_tag(rec["harness"])
     binary = build(group, std, cxx)
+    if str(rec.get("sig", "")).endswith("/no-termination"):
+        try:
+            ctx.run_harness(binary, list(rec["args"]), tag=rec["harness"], timeout=HANG_TIMEOUT)
+        except vlib.HarnessError as e:
+            if "harness timeout" not in str(e):
+                raise
+            ctx.violation(rec["sig"], "replay: the harness again did not end within %d s after its --deadline" % (HANG_TIMEOUT - HANG_DEADLINE), harness=rec["harness"], args=list(rec["args"]))
+        return
     ctx.run_harness(binary, list(rec["args"]), tag=rec["harness"])
